@@ -1,6 +1,8 @@
 package jwk
 
 import (
+	"errors"
+
 	"github.com/shogo82148/goat/internal/jsonutils"
 	"github.com/shogo82148/goat/jwa"
 )
@@ -8,6 +10,13 @@ import (
 func parseSymmetricKey(d *jsonutils.Decoder, key *Key) {
 	privateKey := d.MustBytes("k")
 	key.priv = privateKey
+
+	// sanity check of the certificate
+	if len(key.x5c) > 0 {
+		// the key in the first certificate must match the public key of the JWK,
+		// but symmetric keys have no public key.
+		d.SaveError(errors.New("jwk: x5c is not allowed for symmetric keys"))
+	}
 }
 
 func encodeSymmetricKey(e *jsonutils.Encoder, priv []byte) {
